@@ -1,5 +1,9 @@
-pub fn lcm(iter: impl Iterator<Item = usize>) -> usize {
-    iter.fold(1, |acc, x| acc * x / gcd(acc, x))
+/// Returns `None` if the least common multiple does not fit (or is not defined, for zero)
+pub fn lcm(mut iter: impl Iterator<Item = usize>) -> Option<usize> {
+    iter.try_fold(1usize, |acc, x| match x {
+        0 => None,
+        _ => (acc / gcd(acc, x)).checked_mul(x),
+    })
 }
 
 pub fn gcd(mut a: usize, mut b: usize) -> usize {
